@@ -1032,7 +1032,70 @@ class PvsSuite(XmlSuite):
         return {"valid": case["valid"], "nhdd": min(case["nhdd"], 6)}
 
 
-SUITES = {"vmx": VmxSuite(), "ovf": OvfSuite(), "vbox": VBoxSuite(), "pvs": PvsSuite()}
+class VmxLockedSuite(Suite):
+    """Encrypted .vmx files whose disks are declared in the encrypted part (C15's writer around C18's configurations): the
+    disk list after unlock_with_phrase is the list of the same configuration stored in the clear — also when disks() was
+    already asked for while the file was still locked, and on an object that was refused a wrong passphrase first."""
+    name = "vmx_locked"
+    shard = 50
+
+    def generate(self, rng, tier):
+        from harness.props import c15
+        out = []
+        for i in range(60 if tier == "thorough" else 10):
+            b = c15.base_case(rng, i, "quick")
+            cfg = gen_vmx(rng, tier, False)["text"]
+            if cfg and not cfg.endswith("\n"):
+                cfg += "\n"
+            good = b["pairs"][b["good"]]
+            iv = bytes(rng.randrange(256) for _ in range(16))
+            b["cfg"] = cfg.encode().hex()
+            b["cfg_blob"] = c15.seal_blob(bytes.fromhex(good["K"]), iv, cfg.encode(), good["mac"]).hex()
+            visible = "".join(f'{k} = "{v}"\n' for k, v in b["visible"])
+            out.append({"text": c15.render_vmx(b), "pw": b["pw"], "plain": visible + cfg, "order": i % 3})
+        return out
+
+    def impl(self, case):
+        from dissect.hypervisor.descriptor.vmx import VMX
+        out = {}
+        try:
+            v = VMX.parse(case["text"])
+            if case["order"] == 0:
+                out["locked"] = list(v.disks())              # asked while still locked
+            elif case["order"] == 1:
+                try:
+                    v.unlock_with_phrase(case["pw"] + "?")
+                    out["wrong"] = "accepted"
+                except Exception:  # noqa: BLE001
+                    out["locked"] = list(v.disks())
+            v.unlock_with_phrase(case["pw"])
+            out["after"] = list(v.disks())
+            out["again"] = list(v.disks())
+            out["plain"] = list(VMX.parse(case["plain"]).disks())
+        except Exception as e:  # noqa: BLE001
+            out["exc"] = f"{type(e).__name__}: {str(e)[:120]}"
+        return out
+
+    def judge(self, case, impl_res, coq_val):
+        if impl_res.get("outcome"):
+            return [Finding("impl_fault", f"vmx: implementation {impl_res['outcome']}", "vmx:locked:" + impl_res["outcome"])]
+        if "exc" in impl_res or impl_res.get("wrong"):
+            return [Finding("impl_vs_spec", f"vmx: unlocking a well-formed encrypted configuration failed: {impl_res}", "vmx:locked:exc")]
+        fs = []
+        how = ["after disks() on the locked file", "after a refused passphrase", "directly"][case["order"]]
+        if impl_res["after"] != impl_res["plain"] or impl_res["again"] != impl_res["plain"]:
+            fs.append(Finding("impl_vs_spec", f"vmx: disks() {how}: {impl_res['after']} / {impl_res['again']}; the same configuration "
+                              f"in the clear lists {impl_res['plain']}", "vmx:locked:disks"))
+        return fs
+
+    def nontrivial(self, case, impl_res, coq_val):
+        return core.sha(case["text"].encode()) if impl_res.get("plain") else None
+
+    def dist(self, case):
+        return {"order": case["order"]}
+
+
+SUITES = {"vmx": VmxSuite(), "vmx_locked": VmxLockedSuite(), "ovf": OvfSuite(), "vbox": VBoxSuite(), "pvs": PvsSuite()}
 
 
 # ----------------------------------------------------------------------------- static: alphabet of lower()
